@@ -16,7 +16,7 @@ from ..fa import FA
 from ..loader import AnalysisError
 from .valeq import check_typed_identity
 from .ladders import extract_ladder, check_ladder_order, repo_subclass_pairs
-from .c16 import (FlatInit, outliving_state_reads, canon_conj, conds, fexpand, ftext, is_copy_of, lit_expr, map_shape, origin, same_def, single_def, strip_cast, _ref_name)
+from .c16 import (subst_names, FlatInit, outliving_state_reads, canon_conj, conds, fexpand, ftext, is_copy_of, lit_expr, map_shape, origin, same_def, single_def, strip_cast, _ref_name)
 
 AH = "reference.ArgumentHasher"
 FRA = "reference.FunctionReferenceWithArguments"
@@ -721,6 +721,166 @@ def _first_key(fa, k):
     return A.norm(k) in ("operator.itemgetter(0)", "itemgetter(0)")
 
 
+# ------------------------------------------------------------------------------------------------
+# R6: the normalised values are the reference's own (no container of them is the caller's object)
+# ------------------------------------------------------------------------------------------------
+_DISJOINT = {"None", "bool", "str", "int", "float", "complex", "bytes", "bytearray", "list", "dict", "tuple", "set", "frozenset",
+             "datetime.datetime", "datetime.date", "datetime", "date", "MementoFunctionType", "type(None)", "NoneType"}
+
+
+_SUPERS = {"datetime.datetime": {"datetime.date", "date"}, "datetime": {"date", "datetime.date"}, "bool": {"int"}}
+
+
+def _case_for_class(fa, conj, param, typ):
+    """(can a value of class `typ` take the path with these literals, does a test on its class select it there)"""
+    selected = False
+    for (t, pol) in conj:
+        e, pol_ = lit_expr(t, pol)
+        if e is None:
+            continue
+        h = _holds_for_class(fa, e, param, typ)
+        if h is not None and h != pol_:
+            return False, False
+        if h is True and pol_:
+            selected = True
+    return True, selected
+
+
+def _holds_for_class(fa, e, param, typ):
+    """Three-valued reading of a test on `param` for a value whose class is `typ` ('list' / 'dict'): True / False /
+    None (the test is about something else, or about a class this rule knows nothing of)."""
+    e = strip_cast(e)
+    if isinstance(e, ast.Constant):
+        return bool(e.value)
+    if isinstance(e, ast.UnaryOp) and isinstance(e.op, ast.Not):
+        v = _holds_for_class(fa, e.operand, param, typ)
+        return None if v is None else not v
+    if isinstance(e, ast.BoolOp):
+        vs = [_holds_for_class(fa, x, param, typ) for x in e.values]
+        if isinstance(e.op, ast.And):
+            return False if any(v is False for v in vs) else (True if all(v is True for v in vs) else None)
+        return True if any(v is True for v in vs) else (False if all(v is False for v in vs) else None)
+
+    def of_class(names):
+        if typ in names or "object" in names or (_SUPERS.get(typ, set()) & names):
+            return True
+        return False if names and names <= _DISJOINT else None
+
+    def class_of_param(x):
+        x = strip_cast(x)
+        return (isinstance(x, ast.Call) and isinstance(x.func, ast.Name) and x.func.id == "type" and len(x.args) == 1 and A.norm(x.args[0]) == param) \
+            or (isinstance(x, ast.Attribute) and x.attr == "__class__" and A.norm(x.value) == param)
+    if isinstance(e, ast.Call) and isinstance(e.func, ast.Name) and e.func.id == "isinstance" and len(e.args) == 2 and A.norm(e.args[0]) == param:
+        return of_class(_type_names(fa, e.args[1]))
+    if isinstance(e, ast.Call) and isinstance(e.func, ast.Name) and e.func.id == "callable" and len(e.args) == 1 and A.norm(e.args[0]) == param:
+        return False
+    if isinstance(e, ast.Call) and isinstance(e.func, ast.Name) and e.func.id in ("any", "all") and len(e.args) == 1 and not e.keywords \
+            and isinstance(e.args[0], (ast.GeneratorExp, ast.ListComp)) and len(e.args[0].generators) == 1 and not e.args[0].generators[0].ifs \
+            and isinstance(e.args[0].generators[0].target, ast.Name):
+        # a class test made against each type of a collection in turn
+        g = e.args[0].generators[0]
+        vs = []
+        for t_ in (g.iter.elts if isinstance(g.iter, (ast.Tuple, ast.List, ast.Set)) else []):
+            one = subst_names(e.args[0].elt, {g.target.id: t_})
+            vs.append(_holds_for_class(fa, one, param, typ))
+        if vs:
+            if e.func.id == "any":
+                return True if any(v is True for v in vs) else (False if all(v is False for v in vs) else None)
+            return False if any(v is False for v in vs) else (True if all(v is True for v in vs) else None)
+        return None
+    if isinstance(e, ast.Compare) and len(e.ops) == 1:
+        op, l, r = e.ops[0], e.left, e.comparators[0]
+        pos = isinstance(op, (ast.Is, ast.Eq, ast.In))
+        v = None
+        if isinstance(op, (ast.Is, ast.IsNot, ast.Eq, ast.NotEq)):
+            if (A.norm(l) == param and A.is_none(r)) or (A.norm(r) == param and A.is_none(l)):
+                v = False
+            elif class_of_param(l) or class_of_param(r):
+                other = r if class_of_param(l) else l
+                v = of_class({A.norm(other)})
+                if v is True and A.norm(other) != typ:
+                    v = None
+        elif isinstance(op, (ast.In, ast.NotIn)) and class_of_param(l):
+            v = of_class(_each_of(fa, r))
+        if v is None:
+            return None
+        return v if pos else not v
+    return None
+
+
+def _mentions_class_of(e, param):
+    """does the test `e` look at the class of `param` (isinstance / type / __class__ / issubclass somewhere in it)"""
+    for x in ast.walk(e):
+        if isinstance(x, ast.Call) and isinstance(x.func, ast.Name) and x.func.id in ("isinstance", "type", "issubclass") \
+                and any(isinstance(y, ast.Name) and y.id == param for a in x.args for y in ast.walk(a)):
+            return True
+        if isinstance(x, ast.Attribute) and x.attr == "__class__" and A.norm(x.value) == param:
+            return True
+    return False
+
+
+def _answers_its_argument(fa, param, typ):
+    """The return cases of `fa` that a value of class `typ` can take and on which what is answered is the argument itself
+    (not a container built there): [(value, node)].  A result chosen by a conditional expression / `or` is split."""
+    out = []
+    for (conj, v, at) in result_cases(fa):
+        if not _case_for_class(fa, conj, param, typ)[0]:
+            continue
+        # (a case selected by a test on the argument's class that this rule cannot read - a predicate over a table of types
+        # written some other way - is not counted: what the case answers for a list / a mapping is not known)
+        if any(pol and _holds_for_class(fa, lit_expr(t, pol)[0], param, typ) is None and _mentions_class_of(lit_expr(t, pol)[0], param)
+               for (t, pol) in conj if lit_expr(t, pol)[0] is not None and lit_expr(t, pol)[1]):
+            continue
+
+        def leaves(x):
+            x = strip_cast(x)
+            if isinstance(x, ast.BoolOp):
+                return [y for v_ in x.values for y in leaves(v_)]
+            if isinstance(x, ast.IfExp):
+                return leaves(x.body) + leaves(x.orelse)
+            if isinstance(x, ast.NamedExpr):
+                return leaves(x.value)
+            return [x]
+        if any(isinstance(x, ast.Name) and x.id == param for x in leaves(v)):
+            out.append((v, at))
+    return out
+
+
+def own_containers_clause(ck, rule, enc, dec, nm):
+    """normalize(x) = decode(encode(x)) hands the reference values of its own: for a list / a mapping at least one of the two
+    passes answers a container it built, on every path that such a value can take - and normalize does not answer its
+    argument beside them.  (Each pass may answer its argument when the other one never does: the hash is computed from an
+    encoding that is only read.)"""
+    EP, DP = enc.fi.params[0], dec.fi.params[0]
+    NP = nm.fi.params[0] if nm.fi.params else None
+    for typ, word in (("list", "list"), ("dict", "mapping")):
+        a_e, a_d = _answers_its_argument(enc, EP, typ), _answers_its_argument(dec, DP, typ)
+        a_n = _answers_its_argument(nm, NP, typ) if NP is not None else []
+        bad = bool(a_n) or (bool(a_e) and bool(a_d))
+        if a_n:
+            where, how = nm.where(nm.cfg.node(a_n[0][1]).ast), "normalize answers the %s it was given" % word
+        elif bad:
+            where = enc.where(enc.cfg.node(a_e[0][1]).ast)
+            how = "the encoder (line %s) and the decoder (line %s) both answer the %s they were given when nothing in it needed converting" % (
+                _line_of(enc, a_e[0][1]), _line_of(dec, a_d[0][1]), word)
+        else:
+            where, how = nm.where(), ""
+        ck.ob(rule, nm.key(None, "own-" + typ), not bad,
+              "a normalised %s is a container built by the encoder or the decoder, never the caller's" % word if not bad else
+              "%s: the normalised value kept on the reference is the caller's own %s - it is what the key was computed from and what the body "
+              "receives, so a later change of that object (by the caller, by a body that works on its argument in place, by a sibling call "
+              "built from the same object) changes what the body receives without changing the key, and the result is stored under the key of the original value"
+              % (how, word), where)
+
+
+def _line_of(fa, node_id):
+    try:
+        a = fa.cfg.node(node_id).ast
+        return getattr(a, "lineno", "?")
+    except Exception:
+        return "?"
+
+
 def check(ck):
     from .memo import check_new_memo_tables
     ck.run(check_new_memo_tables, ck, "C04.M1", ('reference', 'base', 'serialization'))
@@ -836,7 +996,10 @@ def check(ck):
     plain = 0
     okt = True
     for (conj, v, at) in cases:
-        if not any(p and _isinstance_lit(t, EP, "dict") for (t, p) in conj):
+        # (the cases a mapping takes: selected by a test on the argument's class that holds for a dict, with no other test
+        # on its class that a dict fails - `isinstance(arg, (list, dict, ...))` ahead of the ladder selects nothing by itself)
+        feasible_, selected_ = _case_for_class(enc, conj, EP, "dict")
+        if not (feasible_ and selected_):
             continue
         try:
             x = strip_cast(enc.expand(v, at))
@@ -1021,8 +1184,22 @@ def check(ck):
     # ---- R3
     nm = FA(ck, AH + ".normalize")
     rr = [r for r in nm.returns() if nm.nodes(r)]
-    okn = bool(rr) and all(r.value is not None and "call:_decode" in nm.deps(r.value) and "call:_encode" in nm.deps(r.value) for r in rr)
+    # (a value for which decode(encode(x)) is x itself - None, a boolean, a number, a string - may be answered as it is)
+    def _through_both(r):
+        return r.value is not None and "call:_decode" in nm.deps(r.value) and "call:_encode" in nm.deps(r.value)
+
+    def _is_argument(r):
+        try:
+            return r.value is not None and nm.fi.params and A.norm(strip_cast(nm.expand(r.value, nm.nodes(r)[0]))) == nm.fi.params[0]
+        except AnalysisError:
+            return False
+    okn = bool(rr) and any(_through_both(r) for r in rr) and all(_through_both(r) or _is_argument(r) for r in rr) and \
+        not any(_answers_its_argument(nm, nm.fi.params[0], typ_) for typ_ in ("datetime.datetime", "datetime.date", "MementoFunctionType") if nm.fi.params)
     ck.ob(R3, nm.key(None), okn, "normalize = decode(encode(x))" if okn else "normalize is no longer decode(encode(x))", nm.where())
+    R6 = "C04.R6"
+    ck.rule(R6, "the body receives exactly the normalised values the key was computed from: a normalised list / mapping is a container built by "
+                "the encoder or the decoder (the reference's own), never the caller's object", 2)
+    ck.run(own_containers_clause, ck, R6, enc, dec, nm)
     fl = FlatInit(ck)
     ini = fl.fa
     EXIT = fl.exit
